@@ -2801,7 +2801,7 @@ pub fn run(a: &Args) {
     }
     out.extra.insert("audit".into(), serde_json::from_str(AUDIT).expect("audit json"));
     // the machines over the M7 reference executor: the whole command set, deadlines, the clock
-    crate::c05m7::run(&mut out, &mut rng.fork(), a.n / 12);
+    crate::c05m7::run(&mut out, &mut rng.fork(), a.n / 8);
     // a fresh runtime every 200 sessions: the shard actors of finished sessions go away with it
     let mut done = 0;
     while done < a.n {
